@@ -185,7 +185,7 @@ def grid_builder(g, E, do, length):
             cells.append(it("mac", alg=alg, data=True))
         cells.append(it("mac", alg=9, data=False))
         for method in (1, 2, 3, 4, 5, 6, 8):
-            for cp in ({"hash": 6}, {"hash": 4, "alg": 3, "mode": 1, "padding": 3}, {}):
+            for cp in ({"hash": 6}, {"hash": 4, "alg": 3, "mode": 1, "padding": 3}, {}, "absent"):
                 for ot in (2, 7):
                     cells.append({"op": "deriveKey", "bid": None, "crypto": None, "otype": ot, "uids": [u], "method": method,
                                   "cp": cp, "tmpl": T(base_attrs(3, 128) if ot == 2 else [A("Cryptographic Length", "int", 128)])})
